@@ -196,3 +196,8 @@ def finalize(ctx):
     for fn in ("plan_rechunk", "old_to_new", "merge_to_number", "divide_to_width", "_bound_degree"):
         if ctx.counters.get(f"contract_evals:{fn}", 0) == 0:
             ctx.inconc(f"contract on {fn} was never evaluated")
+
+
+RULE += (
+    ' A planner that raises over known chunkings is a violation; 15 % of pairs are first planned under a 1MiB limit in the same process.'
+)
